@@ -142,8 +142,12 @@ def do_check(files):
                 p = l.rstrip('\n').split('\t')
                 done[p[0]] = True
         fh = open(resf, 'a')
+        prio = {'negate': 0, 'ifbody': 1, 'binop': 2, 'dropright': 3, 'dropleft': 4, 'delete': 5, 'bool': 6, 'int+1': 7, 'int-1': 8}
+        rows.sort(key=lambda r: (prio.get(r[2], 9), int(r[0])))
         for n, line, op, st, detail in rows:
             if st != 'suitepass' or n in done:
+                continue
+            if op in ('int+1', 'int-1') and os.environ.get('MUT_SKIP_INT'):
                 continue
             t0 = time.time()
             rc, out = sh([ROOT + '/bin/mutate', '-n', n, SRC + '/' + f])
